@@ -51,3 +51,16 @@ Fixpoint keys_eqb (l1 l2 : list name_key) : bool :=
    rotated by one), come out of the model's sort exactly as the font has them *)
 Definition name_order_ok (keys : list name_key) : bool :=
   keys_eqb (sort_keys (rev keys)) keys && keys_eqb (sort_keys (tl keys ++ firstn 1 keys)) keys.
+
+(* ---- table directory: fontbe/src/font.rs adds the tables in the order of TABLES_TO_MERGE, then Debg and any
+   passthrough tables; write-fonts' FontBuilder keeps them in a BTreeMap keyed by tag, so the directory of the file is
+   the sort of the tags (as big-endian u32) whatever order they were added in. *)
+Fixpoint ns_eqb (l1 l2 : list N) : bool :=
+  match l1, l2 with
+  | [], [] => true
+  | a :: t1, b :: t2 => N.eqb a b && ns_eqb t1 t2
+  | _, _ => false
+  end.
+Definition sort_tags (l : list N) : list N := isort_by N.leb l.
+Definition dir_order_ok (tags : list N) : bool :=
+  ns_eqb (sort_tags (rev tags)) tags && ns_eqb (sort_tags (tl tags ++ firstn 1 tags)) tags.
